@@ -247,6 +247,15 @@ def step(s, op, cc):
     np = s.np
     if not s.ok:
         return
+    # what the scanning tools do after indexing and after every populate: read the summary of each frame type's X axis
+    # (the summary itself is not judged - no statement covers it, and it raises for non-finite X values -; reading it must
+    # leave the index and later populations as they were, which the following steps check)
+    for fa_ in getattr(s.lf.log_pass, 'frame_arrays', []):
+        try:
+            s.lf.iflr_position_map[fa_.ident].summary  # noqa
+            cc.cls('x-axis-summary-read')
+        except Exception:  # noqa
+            cc.cls('x-axis-summary-raised')
     if op['op'] == 'check_index':
         cc.cls('index-rechecked-after-populate', bool(s.last))
         s.check_index(cc)
